@@ -2,7 +2,6 @@ package printer
 
 import (
 	"fmt"
-	"strconv"
 	"strings"
 
 	"reflect"
@@ -89,6 +88,39 @@ func getDescription(raw interface{}) string {
 		desc = join([]string{`"""`, desc, `"""`}, sep)
 	}
 	return desc
+}
+
+// quoteString prints s as a GraphQL string literal: only the escapes the
+// lexer understands are used.
+func quoteString(s string) string {
+	var b strings.Builder
+	b.WriteByte('"')
+	for _, r := range s {
+		switch r {
+		case '"':
+			b.WriteString(`\"`)
+		case '\\':
+			b.WriteString(`\\`)
+		case '\b':
+			b.WriteString(`\b`)
+		case '\f':
+			b.WriteString(`\f`)
+		case '\n':
+			b.WriteString(`\n`)
+		case '\r':
+			b.WriteString(`\r`)
+		case '\t':
+			b.WriteString(`\t`)
+		default:
+			if r < 0x20 || r == 0x7f {
+				fmt.Fprintf(&b, `\u%04X`, r)
+			} else {
+				b.WriteRune(r)
+			}
+		}
+	}
+	b.WriteByte('"')
+	return b.String()
 }
 
 func toSliceString(slice interface{}) []string {
@@ -375,7 +407,7 @@ var printDocASTReducer = map[string]visitor.VisitFunc{
 	"StringValue": func(p visitor.VisitFuncParams) (string, interface{}) {
 		switch node := p.Node.(type) {
 		case *ast.StringValue:
-			return visitor.ActionUpdate, strconv.Quote(node.Value)
+			return visitor.ActionUpdate, quoteString(node.Value)
 		case map[string]interface{}:
 			return visitor.ActionUpdate, `"` + getMapValueString(node, "Value") + `"`
 		}
